@@ -371,6 +371,9 @@ def check_text(I, tree, t, source, H, V, what):
     if H is None:
         if t == source:
             return None
+        # ``None if x is None else x`` (an early ``return None`` for an absent text, the rest of the function a no-op) is x
+        if t[0] == "cond" and t[1] in (("cmp", "Is", source, NONE), ("cmp", "Eq", source, NONE)) and t[2] == NONE and t[3] == source:
+            return None
         m = match_interp(I, t)
         if m is not None and m.why is None and m.subject == source and is_empty_list(I, m.headers, tree) and is_empty_list(I, m.values, tree):
             return None
